@@ -198,7 +198,8 @@ def parse_hint(content: bytes) -> Optional[Tuple[int, str]]:
 
 
 def row_key(r: dict) -> tuple:
-    return tuple(sorted(((k, _nv(v)) for k, v in r.items()), key=lambda kv: kv[0]))
+    # an absent optional field and an explicit None are the same row
+    return tuple(sorted(((k, _nv(v)) for k, v in r.items() if v is not None), key=lambda kv: kv[0]))
 
 
 def _nv(v: Any) -> Any:
